@@ -358,6 +358,26 @@ pub fn run(ctx: &Ctx) -> i32 {
         }
         acc = acc.merge(a);
     }
+    // letters repeated or in another order denote the same clause
+    {
+        let mut odd: Vec<Clause> = vec![];
+        for (text, who, op, perm) in [
+            ("u=rwxx", 0o700, '=', 0o7), ("a+rwxrwx", 0o777, '+', 0o7), ("uu+w", 0o700, '+', 0o2), ("ugoa=r", 0o777, '=', 0o4), ("ou+xr", 0o707, '+', 0o5), ("gg=xx", 0o070, '=', 0o1),
+            ("au+x", 0o777, '+', 0o1), ("oog+wrw", 0o077, '+', 0o6), ("a=xwr", 0o777, '=', 0o7),
+        ] {
+            // perm is given for one class (rwx = 7); spread it over the classes of who
+            let spread = (0..3).fold(0u32, |m, k| if who & (0o7 << (3 * k)) != 0 { m | (perm << (3 * k)) } else { m });
+            odd.push(Clause { text: text.to_string(), who, op, perm: spread });
+        }
+        let mut a = Acc::new();
+        for p in ["", "-", "/"] {
+            for c in &odd {
+                check_list(p, &[c], &mut a);
+                check_list(p, &[&cl[17], c], &mut a);
+            }
+        }
+        acc = acc.merge(a);
+    }
     // single clauses under every prefix
     acc = acc.merge(par_cases(cl.len() as u64 * 3, |i, acc| {
         let c = &cl[(i / 3) as usize];
